@@ -384,6 +384,18 @@ void check_vec_pair(Vec<T, N> const &a, Vec<T, N> const &b, int const ma, int co
       if (to_arr(x * y) != prod) verif::fail("vector::operator*|vs-reference|" + L, what() + ": " + show_arr(to_arr(x * y)));
       if (opt_arr(x / y) != quot) verif::fail("vector::operator/|vs-reference|" + L, what());
       if (to_arr(y + x) != sum || to_arr(y * x) != prod) verif::fail("vector::operator+,*|commutative|" + L, what());
+      // the value category of an operand does not matter: temporaries on either side
+      {
+        auto const a_minus_2b = r_zip<T, N>(a, b, [](T p, T q) { return p - 2 * q; });
+        auto const a_plus_2b = r_zip<T, N>(a, b, [](T p, T q) { return p + 2 * q; });
+        auto const twice_diff = r_zip<T, N>(a, b, [](T p, T q) { return 2 * p - 2 * q; });
+        if (to_arr(x - (y + y)) != a_minus_2b) verif::fail("vector::operator-|temporary-right-operand|" + L, what() + ": a - (b + b) = " + show_arr(to_arr(x - (y + y))));
+        if (to_arr(x - (-y)) != sum) verif::fail("vector::operator-|temporary-right-operand|" + L, what() + ": a - (-b) = " + show_arr(to_arr(x - (-y))));
+        if (to_arr((x + y) - y) != a) verif::fail("vector::operator-|temporary-left-operand|" + L, what() + ": (a + b) - b = " + show_arr(to_arr((x + y) - y)));
+        if (to_arr((x + x) - (y + y)) != twice_diff) verif::fail("vector::operator-|temporary-operands|" + L, what() + ": (a + a) - (b + b) = " + show_arr(to_arr((x + x) - (y + y))));
+        if (to_arr(x + (y + y)) != a_plus_2b || to_arr((y + y) + x) != a_plus_2b) verif::fail("vector::operator+|temporary-operand|" + L, what());
+        if (to_arr((x - y) * (x - y)) != r_zip<T, N>(a, b, [](T p, T q) { return (p - q) * (p - q); })) verif::fail("vector::operator*|temporary-operands|" + L, what());
+      }
       if (fv::dot(x, y) != dot || fv::dot(y, x) != dot) verif::fail("vector::dot|vs-reference|" + L, what() + ": " + std::to_string(static_cast<long long>(fv::dot(x, y))) + ", expected " + std::to_string(static_cast<long long>(dot)));
       if (fv::length_square(x + y) != fv::length_square(x) + 2 * fv::dot(x, y) + fv::length_square(y)) verif::fail("vector::length_square|binomial|" + L, what());
       if (to_arr(fv::binary_map(x, y, [](T const p, T const q) { return p * 3 + q; })) != r_zip<T, N>(a, b, [](T p, T q) { return p * 3 + q; })) verif::fail("vector::binary_map|vs-reference|" + L, what());
